@@ -21,7 +21,9 @@ RULE = ("1-3 Directory volumes (any mix of read-only / writable / marked full, r
         "collision.go) in six corruption scenarios; exhaustive bit-flip and truncation sweeps over one small block per run; thorough adds sizes "
         "around 2^15, 2^16, 2^18, 2^20; BlockSize-1/BlockSize/BlockSize+1 blocks (zero-filled, sparse) in both tiers, "
         "generated 64 MiB blocks in thorough; GET/PUT with the buffer pool exhausted and the client gone (Gb, Pb) and "
-        "PUT with a body shorter than its Content-Length (Ps). A case is non-trivial when it "
+        "PUT with a body shorter than its Content-Length (Ps); unit-level cases for compareReaderWithBuf (random chunkings "
+        "incl. zero-length reads and EOF with the last chunk, identical/flipped/truncated/extended/other contents, "
+        "collision verdict) and getWithPipe (stub block reader, every way of ending). A case is non-trivial when it "
         "plants at least one non-intact copy or contains a PUT; distinct = distinct case line")
 ASSUMPTIONS = [
     "sequential requests: the file under a block path does not change between stat and read (races are C02/C04)",
@@ -446,8 +448,59 @@ def _oversize_case(rng, fac):
     return _mkcase(vols, reqs, kinds)
 
 
+def _chunking(rng, data):
+    """random cut of `data` into reads, with occasional zero-length reads"""
+    out, i = [], 0
+    while i < len(data):
+        if rng.random() < 0.1:
+            out.append("e")
+        n = rng.choice([1, 1, 2, 3, 7, 16, len(data) - i, rng.randint(1, len(data) - i)])
+        n = min(n, len(data) - i)
+        out.append(data[i:i + n].hex())
+        i += n
+    if rng.random() < 0.15:
+        out.append("e")
+    return ",".join(out) or "-"
+
+
+def _unit_cases(rng, n_cmp, n_gwp):
+    """unit-level cases for compareReaderWithBuf / collisionOrCorrupt and getWithPipe"""
+    out = []
+    for _ in range(n_cmp):
+        expect = bytes(rng.getrandbits(8) for _ in range(rng.choice([0, 1, 2, 5, 16, 17, 40, rng.randint(0, 40)])))
+        k = rng.choice(["same", "same", "flip", "trunc", "append", "other", "empty", "prefix-chunk"])
+        f = bytearray(expect)
+        if k == "flip" and f:
+            f[rng.randrange(len(f))] ^= 1 << rng.randrange(8)
+        elif k == "trunc" and f:
+            del f[rng.randrange(len(f)):]
+        elif k == "append":
+            f += bytes(rng.getrandbits(8) for _ in range(rng.choice([1, 1, 3, 40])))
+        elif k == "other":
+            f = bytearray(rng.getrandbits(8) for _ in range(rng.choice([len(expect), len(expect) + 1, 3])))
+        elif k == "empty":
+            f = bytearray()
+        f = bytes(f)
+        # the hash the block was asked under: the digest of the data in hand, or (collision verdict)
+        # the digest of what is stored
+        h = hashlib.md5(f if (f != expect and rng.random() < 0.2) else expect).hexdigest()
+        chunks = _chunking(rng, f)
+        if k == "prefix-chunk" and expect:
+            # reads that end exactly where the expected data ends, then more data
+            extra = bytes(rng.getrandbits(8) for _ in range(rng.choice([1, 2, 16])))
+            chunks = _chunking(rng, expect) + "," + _chunking(rng, extra)
+        out.append(f"c01cmp {h} {expect.hex() or '-'} {chunks} {rng.choice(['sep', 'sep', 'last'])}")
+    for _ in range(n_gwp):
+        buflen = rng.choice([0, 1, 2, 8, 16, 33, rng.randint(0, 40)])
+        n = rng.choice([0, buflen, buflen, max(buflen - 1, 0), buflen + 1, rng.randint(0, 60)])
+        data = bytes(rng.getrandbits(8) for _ in range(n))
+        out.append(f"c01gwp {buflen} {_chunking(rng, data)} {rng.choice(['ok', 'ok', 'ueof', 'notexist', 'other'])}")
+    return out
+
+
 def generate(rng, tier):
     cases = []
+    cases += _unit_cases(rng, 150, 100) if tier == "quick" else _unit_cases(rng, 4000, 2500)
     litf, symf = LitFactory(rng), SymFactory(rng)
     sizes = SMALL_SIZES + list(range(0, 97))
     n_random = 600 if tier == "quick" else 16000
@@ -536,6 +589,8 @@ def oracle(case, impl):
     (from the case) or the listing the implementation side printed after the previous request."""
     if impl.startswith(("panic", "CRASH", "setup-failed", "bad-op")):
         return "driver could not observe the requests: " + impl[:200]
+    if case.startswith(("c01cmp ", "c01gwp ")):
+        return None  # unit-level ops: correspondence only, the property text speaks about requests
     try:
         vols, reqs = _parse_case(case)
     except Exception:
@@ -599,6 +654,8 @@ def oracle(case, impl):
 
 
 def nontrivial_key(case, impl):
+    if case.startswith(("c01cmp ", "c01gwp ")):
+        return case if "," in case else None
     ks = _KINDS.get(case)
     if ks is None:
         return case if (" P:" in case or ";P:" in case) else None
@@ -611,6 +668,12 @@ def describe(cases, impl):
     d = {"volumes": {}, "planted": {}, "requests": {}, "flags": {}, "statuses": {}, "max_content_bytes": 0,
          "symbolic_cases": 0}
     for c, out in zip(cases, impl):
+        if c.startswith(("c01cmp ", "c01gwp ")):
+            op = c.split(" ", 1)[0]
+            d.setdefault("unit_ops", {})
+            key = op + ":" + (out or "").split(",")[-1]
+            d["unit_ops"][key] = d["unit_ops"].get(key, 0) + 1
+            continue
         try:
             vols, reqs = _parse_case(c)
         except Exception:
@@ -638,6 +701,8 @@ def describe(cases, impl):
 def neighbours(case, rng):
     """variations for the failing-input search: rotate volumes, toggle flags, re-corrupt a copy,
     surround with GETs and a correct PUT"""
+    if case.startswith(("c01cmp ", "c01gwp ")):
+        return _unit_cases(rng, 6, 4) + [_random_case(rng, LitFactory(rng), SMALL_SIZES)]
     try:
         _, vs, rs = case.split(" ")
     except ValueError:
